@@ -11,7 +11,7 @@ from .. import sym
 from ..values import Num, Const, Tup, Term, Val, Kw, Gam, veq, walk_vals, arr_param
 from ..model import AnalysisError
 from ..symeval import Evaluator
-from ..datasets_model import (documented_names, analyse_loader, lookup_namespace, lookup_of, package_data_globs, check_csv, Loader, DS, BASE,
+from ..datasets_model import (documented_names, analyse_loader, lookup_namespace, lookup_of, unknown_name_outcome, package_data_globs, check_csv, Loader, DS, BASE,
                               LOOKUP, REMOTE_LOADER, RES_LOADER, const_str)
 from .common import show, REPO_RESULT_KIND, ModSpec, same, arr_term
 
@@ -26,7 +26,10 @@ def all_loaders(ctx):
         for mname, mi in ctx.prog.modules.items():
             if not mname.startswith(DS) or mname in (BASE, LOOKUP):
                 continue
+            public = lookup_namespace(ctx.prog, LOOKUP)
             for fi in mi.functions.values():
+                if fi.name.startswith('_') and not any(f is fi for f in public.values()):
+                    continue        # private helpers are looked through (inlined) from the loaders that use them
                 ld = analyse_loader(ctx.prog, fi)
                 if ld is not None:
                     out[fi.qualname] = ld
@@ -144,7 +147,7 @@ def check_bundled(ctx):
     # resource loader
     fi = ctx.prog.func(RES_LOADER)
     for flag in (True, False):
-        ev = Evaluator(ctx.prog, inline=lambda f: False, opaque_kind=REPO_RESULT_KIND)
+        ev = Evaluator(ctx.prog, inline=lambda f: True, opaque_kind=REPO_RESULT_KIND)
         res, st = ev.run_function(fi, args={'file_name': Term('param', (Const('file_name'),)), 'unpack_dataset_columns': Const(flag)})
         loads = [e for e in ev.events if e.kind == 'lib' and e.data['name'] == 'numpy.loadtxt']
         ok = len(loads) == 1
@@ -170,31 +173,31 @@ def check_data_home(ctx):
     ctx.rule('C18.5', 'get_data_home(None) reads TRAFFIC_WEAVER_DATA from the environment at call time with the documented default; the cache path of a '
                       'remote load is join(join(get_data_home(data_home), dataset_folder), dataset_filename)')
     fi = ctx.prog.func(BASE + '.get_data_home')
-    ev = Evaluator(ctx.prog, inline=lambda f: False, opaque_kind=REPO_RESULT_KIND)
+    ev = Evaluator(ctx.prog, inline=lambda f: True, opaque_kind=REPO_RESULT_KIND)
     res, st = ev.run_function(fi, args={fi.params()[0]: Const(None)})
     reads = [e for e in ev.events if e.kind == 'method' and e.data['name'] == 'get' and any(isinstance(p, Const) and p.v == 'TRAFFIC_WEAVER_DATA' for p in e.data['pos'])]
     reads += [e for e in ev.events if e.kind == 'lib' and e.data['name'] in ('os.getenv', 'os.environ.get') and
               any(isinstance(p, Const) and p.v == 'TRAFFIC_WEAVER_DATA' for p in e.data['pos'])]
-    ok = len(reads) >= 1 and all(e.func is fi for e in reads)
+    ok = len(reads) >= 1 and all(e.func is not None for e in reads)
     ctx.check(ok, 'C18.5', 'get_data_home reads TRAFFIC_WEAVER_DATA inside the function (at call time, not at import time)',
               f"environment reads: {[(e.loc(), e.func.name if e.func else 'module level') for e in reads]}", fi.loc(), fi.qualname, 'env')
     sp = ModSpec(ctx.prog, BASE, {})
     want = sp.val('path.expanduser(environ.get("TRAFFIC_WEAVER_DATA", path.join("~", ".traffic-weaver-data")))')
     ctx.check(veq(res, want), 'C18.5', 'get_data_home(None) == expanduser(environ.get("TRAFFIC_WEAVER_DATA", "~/.traffic-weaver-data"))',
               f"code: {show(res, 200)}\nspec: {show(want, 200)}", fi.loc(), fi.qualname, 'value')
-    res2, _ = Evaluator(ctx.prog, inline=lambda f: False, opaque_kind=REPO_RESULT_KIND).run_function(fi, args={fi.params()[0]: Const('/explicit/home')})
+    res2, _ = Evaluator(ctx.prog, inline=lambda f: True, opaque_kind=REPO_RESULT_KIND).run_function(fi, args={fi.params()[0]: Const('/explicit/home')})
     okp = any(isinstance(t, Const) and t.v == '/explicit/home' for t in walk_vals(res2)) and \
         not any(isinstance(t, Const) and t.v == 'TRAFFIC_WEAVER_DATA' for t in walk_vals(res2))
     ctx.check(okp, 'C18.5', 'an explicit data_home takes precedence over the environment', show(res2, 200), fi.loc(), fi.qualname, 'explicit')
     # cache path
     rfi = ctx.prog.func(REMOTE_LOADER)
-    ev = Evaluator(ctx.prog, inline=lambda f: False, opaque_kind=REPO_RESULT_KIND)
+    ev = Evaluator(ctx.prog, inline=lambda f: f is not fi, opaque_kind=REPO_RESULT_KIND)
     args = {p: Term('param', (Const(p),)) for p in rfi.params()}
     ev.run_function(rfi, args=args)
     ex = [e for e in ev.events if e.kind == 'lib' and e.data['name'] == 'os.path.exists']
     sp = ModSpec(ctx.prog, BASE, {k: v for k, v in args.items()})
     want = sp.val('path.join(path.join(get_data_home(data_home), dataset_folder), dataset_filename)')
-    ok = len(ex) == 1 and veq(ex[0].data['pos'][0] if ex[0].data['pos'] else None, want)
+    ok = len(ex) >= 1 and veq(ex[0].data['pos'][0] if ex[0].data['pos'] else None, want)
     ctx.check(ok, 'C18.5', 'the cache slot tested for availability is <data home>/<dataset_folder>/<dataset_filename>',
               f"code: {show(ex[0].data['pos'][0], 200) if ex and ex[0].data['pos'] else None}\nspec: {show(want, 200)}", rfi.loc(), rfi.qualname, 'slot')
 
@@ -206,8 +209,8 @@ def run(ctx):
     check_data_home(ctx)
     ctx.rule('C18.2', 'unknown names raise ValueError (the failed attribute lookup is converted; C20.1) and no documented name relies on that path')
     lfi = ctx.prog.func(BASE + '.load_dataset')
-    handlers = [n for n in ast.walk(lfi.node) if isinstance(n, ast.ExceptHandler)]
-    ok = any(any(isinstance(n, ast.Raise) and isinstance(n.exc, ast.Call) and getattr(n.exc.func, 'id', '') == 'ValueError' for n in ast.walk(h)) for h in handlers)
-    ctx.check(ok, 'C18.2', 'load_dataset: unknown name -> ValueError', '', lfi.loc(), lfi.qualname, 'unknown')
+    raises, returned, _ = unknown_name_outcome(ctx.prog)
+    ok = bool(raises) and all(r == 'ValueError' for r in raises) and not returned
+    ctx.check(ok, 'C18.2', 'load_dataset: unknown name -> ValueError', f"raises {raises}; returns {returned}", lfi.loc(), lfi.qualname, 'unknown')
     ctx.notes.append('NOT DECIDED: the content of remote files; what a download returns.')
     ctx.trust('Markdown tables in data_description/*.md are the documented names', 'setuptools package-data glob semantics (fnmatch on the file name)')
